@@ -206,8 +206,14 @@ func parseSubstvar(input *input, relation *Relation) error {
 			return errors.New("Oh no. Relation ended before substvar finished")
 		case '}':
 			input.Next()
-			relation.Possibilities = append(relation.Possibilities, *ret)
-			return nil
+			/* a substvar is a whole alternative, nothing may trail it */
+			eatWhitespace(input)
+			switch input.Peek() {
+			case ',', '|', 0:
+				relation.Possibilities = append(relation.Possibilities, *ret)
+				return nil
+			}
+			return fmt.Errorf("Trailing garbage after a substvar: %c", input.Peek())
 		}
 		ret.Name += string([]byte{input.Next()})
 	}
